@@ -138,7 +138,7 @@ def session(job):
                     code, adv = harvest(n0)
                     lines += adv
                     continue
-                r = 0.0
+                r = 1.0 if plan[step][0] == "ncidlow" else 0.0
             if r < 0.72:
                 # STREAM / RESET_STREAM aimed at a limit
                 far = rnd.random() < 0.08
@@ -194,7 +194,7 @@ def session(job):
                     rec_off, rec_len = (end, 0) if reset else (off, ln)
                 # a stream whose both halves finished is forgotten by the endpoint; RFC 9000 4.5 does not oblige it to
                 # keep the final size of closed streams, so frames on such a stream are not judged
-                live = sid not in conn._streams_finished and not (sid in conn._streams and conn._streams[sid].receiver.is_finished)
+                live = sid not in conn._streams_finished
                 H.inject(s, src, "1rtt", pre + payload, "flow")
                 inj = next(e for e in reversed(s.log) if e["k"] == "inject")
                 code, adv = harvest(n0)
@@ -206,7 +206,10 @@ def session(job):
                 lines += adv
                 closed = code != -1
             else:
-                kind = rnd.choice(["crypto", "challenge", "ncid", "ack", "ack"])
+                kind = rnd.choice(["crypto", "challenge", "ncid", "ack", "ack"] + (["ncidlow"] if job.get("cidflood") else []))
+                if plan is not None:
+                    kind = plan[step][0]
+                more = []
                 if kind == "ack":
                     payload = build_ack(rnd.random() < 0.8)
                     if payload is None:
@@ -217,6 +220,18 @@ def session(job):
                     payload = H.f_crypto(off, bytes(rnd.choice([1, 100, 1100])))
                 elif kind == "challenge":
                     payload = b"".join(H.f_path_challenge(bytes([rnd.randrange(256)]) * 8) for _ in range(rnd.choice([1, 33, 100])))
+                elif kind == "ncidlow":
+                    # connection IDs announced *below* a Retire Prior To already processed (reordered frames): each must be
+                    # retired at once, and the queue of pending retirements stays bounded whatever the order
+                    cidb = lambda q: bytes([0xEE, q >> 8, q & 255]) + bytes(5)
+                    if not job.get("_rpt"):
+                        job["_rpt"] = 5000
+                        payload = H.f_new_cid(5000, 5000, cidb(5000))
+                    else:
+                        low = job.setdefault("_low", 1000)
+                        packs = [b"".join(H.f_new_cid(low + 38 * j + i, 0, cidb(low + 38 * j + i)) for i in range(38)) for j in range(4)]
+                        job["_low"] = low + 38 * 4
+                        payload, more = packs[0], packs[1:]
                 else:
                     base = job.setdefault("_seq", 8)
                     k = rnd.choice([1, 3, 7])
@@ -224,6 +239,9 @@ def session(job):
                                                    bytes([0xEE, (base + i) >> 8, (base + i) & 255]) + bytes(5)) for i in range(k))
                     job["_seq"] = base + k
                 H.inject(s, src, "1rtt", payload, kind)
+                for extra in more:             # several packets before the endpoint next transmits
+                    if conn._close_event is None:
+                        H.inject(s, src, "1rtt", extra, kind)
                 code, adv = harvest(n0)
                 lines += adv
                 closed = code != -1
@@ -298,7 +316,8 @@ def run(check):
         if loaded:                      # the attacked endpoint may send a lot: its peer's limits are large, its own stay small
             big = {"max_stream_data": 1 << 20, "max_data": 1 << 20} if tgt == "s" else {"s_max_stream_data": 1 << 20, "s_max_data": 1 << 20}
             cfg.update(big)
-        jobs.append({"cfg": cfg, "target": tgt, "seed": rnd.randrange(1 << 30), "steps": rnd.choice([15, 40, 80]), "loaded": loaded})
+        jobs.append({"cfg": cfg, "target": tgt, "seed": rnd.randrange(1 << 30), "steps": rnd.choice([15, 40, 80]), "loaded": loaded,
+                     "cidflood": i % 8 in (1, 4)})
     # corpus: the endpoint is congestion-limited (its own data is never acknowledged) when it wants to raise a limit
     for tgt in "cs":
         peer_uni0 = 3 if tgt == "c" else 2
@@ -309,6 +328,10 @@ def run(check):
                      "target": tgt, "seed": 77, "loaded": True, "steps": 40,
                      "plan": [["frame", peer_uni0, -400, 600, False, False], ["frame", peer_uni0, 1, 1, False, False],
                               ["frame", peer_uni0, 300, 1, False, False], ["fire"], ["frame", peer_uni0, 1, 1, False, False]]})
+    # corpus: connection IDs announced below a Retire Prior To already processed, many before the endpoint next transmits
+    for tgt in "cs":
+        jobs.append({"cfg": {"max_stream_data": 1000, "max_data": 100000, "s_max_stream_data": 1000, "s_max_data": 100000},
+                     "target": tgt, "seed": 79, "loaded": False, "steps": 10, "plan": [["ncidlow"], ["ncidlow"], ["ncidlow"]]})
     # corpus: a MAX_STREAMS frame is declared lost by the very packet that opens a stream it allows
     for tgt in "cs":
         b1, b3 = (5, 13) if tgt == "c" else (4, 12)
